@@ -525,6 +525,8 @@ type Clause struct {
 	Name string // optional label [name]
 	File string
 	Line int
+	// Assumed: 'ensures assumed ...' - the clause is given to callers but not proved of the body (listed as an assumption)
+	Assumed bool
 }
 
 type ParamSpec struct { // contract for a function-typed parameter
@@ -695,12 +697,16 @@ func parseSpecLines(file string, pkg string, lines []specLine) (*SpecFile, error
 			if cur == nil {
 				return nil, errf("%s outside func", d.word)
 			}
-			name, text := splitLabel(d.text)
+			dtext, assumed := d.text, false
+			if d.word == "ensures" && strings.HasPrefix(dtext, "assumed ") {
+				dtext, assumed = strings.TrimSpace(dtext[len("assumed "):]), true
+			}
+			name, text := splitLabel(dtext)
 			e, err := ParseExpr(text)
 			if err != nil {
 				return nil, errf("%v", err)
 			}
-			c := Clause{Text: text, E: e, Name: name, File: file, Line: d.line}
+			c := Clause{Text: text, E: e, Name: name, File: file, Line: d.line, Assumed: assumed}
 			if d.word == "requires" {
 				cur.Requires = append(cur.Requires, c)
 			} else {
